@@ -68,6 +68,13 @@ Definition judge (expected : sres aval) (hp : shelper) (h : ahargs) (pre post : 
     | SAny => true
     end
   else
+    (* a call that raises leaves the receiver as it was (C05-G1: `del obj.a` on an attribute
+       without default that holds nothing raised AttributeError AFTER resetting the dependants):
+       the abstract state of the receiver after the error is the state before.  Scalar /
+       top-level helpers, assignment and deletion only (element helpers: C06 / C07). *)
+    (if is_elem_helper hp then true
+     else aval_eqb (abs_g pre (root_val pre x)) (abs_g post (root_val post x)))
+    &&
     match expected with
     | SOk _ => false
     | SErr e => zl_eqb out [(- Z.of_nat (err_code e))%Z]
